@@ -1513,7 +1513,7 @@ func (w *htlcWorkload) paramsTx(st *htState) (rig.Tx, bool) {
 	case 5:
 		tag.Note = "time-based-limit"
 		a.SupplyLimit.TimeBasedLimit = toInt(randFrac(rng, new(big.Int).Add(bi(a.SupplyLimit.Limit), bigOne)))
-		if sup.TimeLimitedCurrentSupply.Denom != "" && sup.TimeLimitedCurrentSupply.Amount.IsPositive() && rng.Intn(2) == 0 {
+		if sup.TimeLimitedCurrentSupply.Denom != "" && sup.TimeLimitedCurrentSupply.Amount.IsPositive() {
 			// below what this period has already counted: the claims still to come in this period meet a limit that is
 			// behind them
 			tag.Note = "time-based-limit-below-counted"
